@@ -8,20 +8,20 @@ func registerProps() {
 	propTable["C01"] = PropDef{
 		Title:       "Key-value read-after-write: every read returns the last successful write",
 		Rules:       []string{"R-TXN", "R-COMMIT", "R-ROWCOMPLETE", "R-READ-NULL", "R-READ-ONCE", "R-LIVE", "R-COLL", "R-ERRPROP", "R-EVT-ROW", "R-RMW", "R-ERR-OVERWRITE", "R-EXP", "R-FRESH-DECODE", "R-WRITE-PATH", "R-KEEP-NEEDS-ROW", "R-ERR-DROPPED", "R-INSERT-GUARD", "R-DROP"},
-		Scope:       map[string][]string{"R-RMW": {"WriteSubDoc", "SubdocInsert"}},
-		Explanation: "Decides necessary structural clauses, not the behaviour: (a) an operation that fails leaves the document as it was <= every row write runs on the handle of the one transaction (R-TXN) that the runner rolls back on every failing path and whose commit error is reported (R-COMMIT), and no statement error inside a transaction closure is dropped (R-ERRPROP) nor is a stored error replaced by a later step's before it was examined (R-ERR-OVERWRITE); (b) the last successful write is what is stored <= every body/tombstone/xattr statement assigns the complete row (R-ROWCOMPLETE) and the values bound into it are the operation's own (R-EVT-ROW); a read-modify-write of a body starts every attempt from a fresh read, so that what it stores is the document it last read plus its own change (R-RMW, sub-document writers); (c) missing if deleted <= the read helper maps a NULL body to the missing error (R-READ-NULL), read-side liveness tests use the body column (R-LIVE), reads are scoped to the receiver's collection (R-COLL). A read outside a transaction is one statement (R-READ-ONCE); the expiry a write stores does not depend on the supplied value being non-zero (R-EXP/e); maps decoded into inside a loop are fresh per iteration (R-FRESH-DECODE). An exported mutating entry point reports success only on paths that went through the document writer, except where the caller's own callback cancels (R-WRITE-PATH).",
+		Scope:       map[string][]string{"R-RMW": {"WriteSubDoc", "SubdocInsert", "Update"}},
+		Explanation: "Decides necessary structural clauses, not the behaviour: (a) an operation that fails leaves the document as it was <= every row write runs on the handle of the one transaction (R-TXN) that the runner rolls back on every failing path and whose commit error is reported (R-COMMIT), and no statement error inside a transaction closure is dropped (R-ERRPROP) nor is a stored error replaced by a later step's before it was examined (R-ERR-OVERWRITE); (b) the last successful write is what is stored <= every body/tombstone/xattr statement assigns the complete row (R-ROWCOMPLETE) and the values bound into it are the operation's own (R-EVT-ROW); a read-modify-write of a body starts every attempt from a fresh read, so that what it stores is the document it last read plus its own change (R-RMW, sub-document writers); (c) missing if deleted <= the read helper maps a NULL body to the missing error (R-READ-NULL), read-side liveness tests use the body column (R-LIVE), reads are scoped to the receiver's collection (R-COLL). A read outside a transaction is one statement (R-READ-ONCE); the expiry a write stores does not depend on the supplied value being non-zero (R-EXP/e); maps decoded into inside a loop are fresh per iteration (R-FRESH-DECODE). An exported mutating entry point reports success only on paths that went through the document writer, except where the caller's own callback cancels (R-WRITE-PATH). A failed write-back of Update is never reported as success (R-RMW, scope extended to Update).",
 		NotDecided:  "equality of returned bytes/CAS/expiry with a model over arbitrary histories; JSON encode/decode; nil bodies passed to Set/Add; purge visibility; value-level control flow inside Update's callback handling.",
 	}
 	propTable["C02"] = PropDef{
 		Title:       "Optimistic concurrency: a CAS-conditional write succeeds iff the CAS is current",
-		Rules:       []string{"R-CAS", "R-RMW", "R-INSERT-GUARD", "R-TXN", "R-COMMIT", "R-FLAGS", "R-COLL", "R-MONO", "R-READ-CAS", "R-HLC"},
-		Explanation: "For each of the nine collection entry points with an expected-CAS parameter, every statement that writes body or xattrs is guarded inside the same transaction closure by a SQL conjunct cas = <expected> or by a Go comparison with documents.cas read through the transaction, decided by cut-reachability on the SSA control-flow graph (R-CAS); sub-document writers and Update loops write back with the CAS they read (R-RMW); a rejected write changes nothing because it shares the rolled-back transaction (R-TXN, R-COMMIT); insert semantics for CAS 0 / AddOnly are governed by the conflict guard (R-INSERT-GUARD) and the option flags are enforced (R-FLAGS). The CAS that is compared is read from the row of the receiver's own collection (R-COLL). A CAS value is never handed out twice, so equality with the expected CAS identifies one version (R-MONO).",
+		Rules:       []string{"R-CAS", "R-RMW", "R-INSERT-GUARD", "R-TXN", "R-COMMIT", "R-FLAGS", "R-COLL", "R-MONO", "R-READ-CAS", "R-HLC", "R-TOMB", "R-EVT-ROW"},
+		Explanation: "For each of the nine collection entry points with an expected-CAS parameter, every statement that writes body or xattrs is guarded inside the same transaction closure by a SQL conjunct cas = <expected> or by a Go comparison with documents.cas read through the transaction, decided by cut-reachability on the SSA control-flow graph (R-CAS); sub-document writers and Update loops write back with the CAS they read (R-RMW); a rejected write changes nothing because it shares the rolled-back transaction (R-TXN, R-COMMIT); insert semantics for CAS 0 / AddOnly are governed by the conflict guard (R-INSERT-GUARD) and the option flags are enforced (R-FLAGS). The CAS that is compared is read from the row of the receiver's own collection (R-COLL). A CAS value is never handed out twice, so equality with the expected CAS identifies one version (R-MONO). The body and the deletion flag a writer stores agree, since the guard's 'no live document' test reads the flag (R-TOMB); the guarded statement addresses the row by its key (R-EVT-ROW/key); a CAS-guarded statement that matched no row fails, with a CAS mismatch unless the insert-only bit is set (R-INSERT-GUARD).",
 		NotDecided:  "behaviour of real interleavings (rests on SQLite isolation and the bucket mutex, trusted); which error value is returned; the pinned CAS-free resurrection of a tombstone by AddOnly.",
 	}
 	propTable["C03"] = PropDef{
 		Title:       "Concurrent operations are linearizable, across goroutines and bucket handles",
-		Rules:       []string{"R-TXN", "R-TXN-READS", "R-COMMIT", "R-SHARED-COPY", "R-RMW", "R-GUARDED", "R-ONE-TXN", "R-ROWCOMPLETE", "R-REV", "R-READ-ONCE", "R-REGISTRY", "R-CAS", "R-MONO", "R-HLC", "R-READ-CAS"},
-		Explanation: "Necessary atomic-section structure only: a read outside a transaction is a single statement (R-READ-ONCE); read-modify-write entry points read through the transaction handle and write in the same closure (R-TXN, R-TXN-READS, R-REV's same-transaction clause); the runner holds the shared mutex across Begin..Commit (R-COMMIT); all handle copies share that mutex and database (R-SHARED-COPY); optimistic loops carry the CAS they read, into fresh variables, and retry only on mismatch (R-RMW); shared in-memory maps and flags are accessed under their mutex (R-GUARDED); one transaction per operation (R-ONE-TXN); every mutation refreshes the row's CAS so that a stale reader's conditional write fails (R-ROWCOMPLETE). Every opener is handed a copy of the one registered bucket (R-REGISTRY); CAS comparisons happen inside the writing transaction (R-CAS).",
+		Rules:       []string{"R-TXN", "R-TXN-READS", "R-COMMIT", "R-SHARED-COPY", "R-RMW", "R-GUARDED", "R-ONE-TXN", "R-ROWCOMPLETE", "R-REV", "R-READ-ONCE", "R-REGISTRY", "R-CAS", "R-MONO", "R-HLC", "R-READ-CAS", "R-INSERT-GUARD", "R-RETRY-STATE"},
+		Explanation: "Necessary atomic-section structure only: a read outside a transaction is a single statement (R-READ-ONCE); read-modify-write entry points read through the transaction handle and write in the same closure (R-TXN, R-TXN-READS, R-REV's same-transaction clause); the runner holds the shared mutex across Begin..Commit (R-COMMIT); all handle copies share that mutex and database (R-SHARED-COPY); optimistic loops carry the CAS they read, into fresh variables, and retry only on mismatch (R-RMW); shared in-memory maps and flags are accessed under their mutex (R-GUARDED); one transaction per operation (R-ONE-TXN); every mutation refreshes the row's CAS so that a stale reader's conditional write fails (R-ROWCOMPLETE). Every opener is handed a copy of the one registered bucket (R-REGISTRY); CAS comparisons happen inside the writing transaction (R-CAS). A CAS-guarded statement that matched no row makes the operation fail (R-INSERT-GUARD); a retry never writes what an abandoned attempt computed (R-RETRY-STATE); a function that reads a document through the pool does not then write it in an unconditional transaction of its own, and no written value derives from a pool read (R-RMW/h, R-TXN-READS).",
 		NotDecided:  "linearizability of observed histories, real-time order, SQLite's isolation guarantees.",
 	}
 	propTable["C04"] = PropDef{
@@ -32,44 +32,44 @@ func registerProps() {
 	}
 	propTable["C05"] = PropDef{
 		Title:       "Tombstone coherence: deleted means no body, for every observer and every path",
-		Rules:       []string{"R-TOMB", "R-ROWCOMPLETE", "R-XATTR-CARRY", "R-TOMB-XATTRS", "R-PURGE", "R-BACKFILL", "R-EVT-ROW", "R-LIVE", "R-FILTER-RESULT", "R-READ-CAS"},
-		Explanation: "The two encodings of 'deleted' (value IS NULL, tombstone flag) are written together and coherently by every statement (R-TOMB); tombstoning clears expiry and rewrites xattrs, body-giving writes clear a tombstone's xattrs (R-ROWCOMPLETE, R-XATTR-CARRY); the xattrs a tombstoning statement binds have been filtered since they were read, or are known empty (R-TOMB-XATTRS); the deletion flag of an event is a nil-test of the body that statement stores (R-EVT-ROW); purge removes exactly the rows without a body (R-PURGE); the deletion flag of live and backfill events comes from the same row state (R-EVT-ROW, R-BACKFILL); readers use the body column (R-LIVE). The filter that drops user xattrs returns nothing, not its input, when everything was dropped (R-FILTER-RESULT).",
+		Rules:       []string{"R-TOMB", "R-ROWCOMPLETE", "R-XATTR-CARRY", "R-TOMB-XATTRS", "R-PURGE", "R-BACKFILL", "R-EVT-ROW", "R-LIVE", "R-FILTER-RESULT", "R-READ-CAS", "R-EVT-FEEDEVENT"},
+		Explanation: "The two encodings of 'deleted' (value IS NULL, tombstone flag) are written together and coherently by every statement (R-TOMB); tombstoning clears expiry and rewrites xattrs, body-giving writes clear a tombstone's xattrs (R-ROWCOMPLETE, R-XATTR-CARRY); the xattrs a tombstoning statement binds have been filtered since they were read, or are known empty (R-TOMB-XATTRS); the deletion flag of an event is a nil-test of the body that statement stores (R-EVT-ROW); purge removes exactly the rows without a body (R-PURGE); the deletion flag of live and backfill events comes from the same row state (R-EVT-ROW, R-BACKFILL); readers use the body column (R-LIVE). The filter that drops user xattrs returns nothing, not its input, when everything was dropped (R-FILTER-RESULT). The keys-only copy of an event is a copy of the whole event, deletion flag included (R-EVT-FEEDEVENT); a partial update (touch, xattr edit) knows whether its row is live (R-LIVE).",
 		NotDecided:  "which xattrs count as system xattrs (the underscore test is value level); nil bodies bound to a statement that writes tombstone=0; agreement of observers over concrete histories.",
 	}
 	propTable["C06"] = PropDef{
 		Title:       "Insert-only writes never overwrite a live document, always create an absent one",
 		Rules:       []string{"R-INSERT-GUARD", "R-FLAGS", "R-TOMB", "R-CAS", "R-LIVE", "R-COLL", "R-EVT-ROW"},
-		Explanation: "Every INSERT..ON CONFLICT DO UPDATE on documents (except the upsert primitive) restricts its update, as a top-level AND-conjunct, to rows without a body and has its RowsAffected consulted; Add/AddRaw reach only such guarded inserts (R-INSERT-GUARD); callers of the unconditional upsert primitive decide existence in Go through option flags that guard error returns (R-FLAGS); the guard's flag means 'no body' because the flag and the body are written together (R-TOMB); WriteCas' CAS-less insert variant is reachable only for CAS 0 / AddOnly (R-CAS). Whether the row read is live is decided by NULL-ness of the body or the flag, never by the body's length (R-LIVE). The row that decides whether the key is absent is the row of the receiver's collection (R-COLL). The tombstone flag stored with a row (which every insert-only write tests) is derived from the body stored with it (R-EVT-ROW/isDeletion, R-TOMB).",
+		Explanation: "Every INSERT..ON CONFLICT DO UPDATE on documents (except the upsert primitive) restricts its update, as a top-level AND-conjunct, to rows without a body and has its RowsAffected consulted; Add/AddRaw reach only such guarded inserts (R-INSERT-GUARD); callers of the unconditional upsert primitive decide existence in Go through option flags that guard error returns (R-FLAGS); the guard's flag means 'no body' because the flag and the body are written together (R-TOMB); WriteCas' CAS-less insert variant is reachable only for CAS 0 / AddOnly (R-CAS). Whether the row read is live is decided by NULL-ness of the body or the flag, never by the body's length (R-LIVE). The row that decides whether the key is absent is the row of the receiver's collection (R-COLL). The tombstone flag stored with a row (which every insert-only write tests) is derived from the body stored with it (R-EVT-ROW/isDeletion, R-TOMB). A body write that carries no expected CAS sets an option to the constant true (insert-only), never to a runtime value (R-FLAGS).",
 		NotDecided:  "per-history truth of the 'iff'; nil bodies.",
 	}
 	propTable["C07"] = PropDef{
 		Title:       "Body and xattrs are independent; a combined write is all-or-nothing",
-		Rules:       []string{"R-TXN", "R-ERRPROP", "R-XATTR-CARRY", "R-MACRO-ORDER", "R-ONE-TXN", "R-EVT-ROW", "R-ROWCOMPLETE", "R-ERR-OVERWRITE", "R-OPTS-CARRY", "R-FILTER-RESULT", "R-XATTR-ROUNDTRIP", "R-XATTR-VALIDATE"},
-		Explanation: "The options a caller gives (PreserveExpiry, macro expansions) reach the function that does the write unchanged or as a complete copy (R-OPTS-CARRY). A combined write is one transaction with one CAS in which no statement error is dropped, nor an error of one step (e.g. one xattr key of several) replaced by a later step's before it was examined (R-TXN, R-ONE-TXN, R-ERRPROP, R-ERR-OVERWRITE, R-EVT-ROW/cas); body-only writes carry the row's xattrs over and clear them only on tombstones (R-XATTR-CARRY); the event fields that macro expansion reads (cas, value) are final when it runs (R-MACRO-ORDER); xattr-only statements still refresh cas and revSeqNo (R-ROWCOMPLETE). The xattr filter helper returns the re-encoded map, never its input, after the edit ran (R-FILTER-RESULT); stored xattrs are decoded whenever they exist before the unconditional re-encode (R-XATTR-ROUNDTRIP).",
+		Rules:       []string{"R-TXN", "R-ERRPROP", "R-XATTR-CARRY", "R-MACRO-ORDER", "R-ONE-TXN", "R-EVT-ROW", "R-ROWCOMPLETE", "R-ERR-OVERWRITE", "R-OPTS-CARRY", "R-FILTER-RESULT", "R-XATTR-ROUNDTRIP", "R-XATTR-VALIDATE", "R-RETRY-STATE"},
+		Explanation: "The options a caller gives (PreserveExpiry, macro expansions) reach the function that does the write unchanged or as a complete copy (R-OPTS-CARRY). A combined write is one transaction with one CAS in which no statement error is dropped, nor an error of one step (e.g. one xattr key of several) replaced by a later step's before it was examined (R-TXN, R-ONE-TXN, R-ERRPROP, R-ERR-OVERWRITE, R-EVT-ROW/cas); body-only writes carry the row's xattrs over and clear them only on tombstones (R-XATTR-CARRY); the event fields that macro expansion reads (cas, value) are final when it runs (R-MACRO-ORDER); xattr-only statements still refresh cas and revSeqNo (R-ROWCOMPLETE). The xattr filter helper returns the re-encoded map, never its input, after the edit ran (R-FILTER-RESULT); stored xattrs are decoded whenever they exist before the unconditional re-encode (R-XATTR-ROUNDTRIP). No argument of WriteUpdateWithXattrs' write-back is carried over from an abandoned attempt (R-RETRY-STATE); removing an xattr that is not there fails whatever else the write does (R-XATTR-VALIDATE).",
 		NotDecided:  "byte-for-byte preservation through JSON re-marshalling; CRC correctness; which inputs count as nil (payload.isNil is value level); error classification.",
 	}
 	propTable["C08"] = PropDef{
 		Title:       "Live feed: one faithful event per successful mutation, delivered in CAS order",
-		Rules:       []string{"R-EVT-1", "R-EVT-FEEDEVENT", "R-EVT-ROW", "R-EVT-CONV", "R-QUEUE", "R-ATOMIC-ENQ", "R-POST-ORDER", "R-FEEDMAP", "R-FEEDMAP-WRITERS", "R-SHARED-COPY", "R-INSERT-GUARD", "R-HLC", "R-FEED-DELIVER", "R-POST-ALWAYS", "R-FEED-STOPPERS"},
-		Explanation: "The post function is never reachable from inside a transaction and each call of it is guarded by 'transaction error is nil' and 'event is non-nil' (R-EVT-1); mutation/deletion FeedEvents are built only by the one converter, whose fields are computed from exactly the corresponding event fields (R-EVT-FEEDEVENT, R-EVT-CONV); for every write unit each event field is the value bound into (or scanned back from) the row in the same transaction (R-EVT-ROW); queues are FIFO (R-QUEUE); commit and enqueue share a critical section and nothing that can block precedes the enqueue (R-ATOMIC-ENQ, R-POST-ORDER); registry entries are only ever extended by appending a new feed (R-FEEDMAP-WRITERS); events go to the writer's own collection's feeds, shared by all handles (R-FEEDMAP, R-SHARED-COPY); a refused insert leaves without an event (R-INSERT-GUARD). CAS order is commit order because the CAS is drawn inside the transaction closure, under the bucket mutex (R-HLC/CALL).",
+		Rules:       []string{"R-EVT-1", "R-EVT-FEEDEVENT", "R-EVT-ROW", "R-EVT-CONV", "R-QUEUE", "R-ATOMIC-ENQ", "R-POST-ORDER", "R-FEEDMAP", "R-FEEDMAP-WRITERS", "R-SHARED-COPY", "R-INSERT-GUARD", "R-HLC", "R-FEED-DELIVER", "R-POST-ALWAYS", "R-FEED-STOPPERS", "R-COLL"},
+		Explanation: "The post function is never reachable from inside a transaction and each call of it is guarded by 'transaction error is nil' and 'event is non-nil' (R-EVT-1); mutation/deletion FeedEvents are built only by the one converter, whose fields are computed from exactly the corresponding event fields (R-EVT-FEEDEVENT, R-EVT-CONV); for every write unit each event field is the value bound into (or scanned back from) the row in the same transaction (R-EVT-ROW); queues are FIFO (R-QUEUE); commit and enqueue share a critical section and nothing that can block precedes the enqueue (R-ATOMIC-ENQ, R-POST-ORDER); registry entries are only ever extended by appending a new feed (R-FEEDMAP-WRITERS); events go to the writer's own collection's feeds, shared by all handles (R-FEEDMAP, R-SHARED-COPY); a refused insert leaves without an event (R-INSERT-GUARD). CAS order is commit order because the CAS is drawn inside the transaction closure, under the bucket mutex (R-HLC/CALL). The xattrs an event carries are read from the row of the receiver's collection (R-COLL).",
 		NotDecided:  "delivery itself (goroutine scheduling), xattr framing bytes, exactly-once at run time.",
 	}
 	propTable["C09"] = PropDef{
 		Title:       "Backfill is a faithful snapshot and joins the live stream without a gap",
-		Rules:       []string{"R-BACKFILL", "R-BACKFILL-GAP", "R-EVT-CONV", "R-COLL", "R-BACKFILL-COND", "R-EVT-FEEDEVENT", "R-FEEDMAP-WRITERS", "R-CHECKPOINT"},
-		Explanation: "The snapshot is taken whenever the arguments ask for it (R-BACKFILL-COND) and the live fan-out hands every event to every registered feed without filtering on event or feed state (R-EVT-FEEDEVENT). The backfill statement ranges over exactly the receiver's rows with cas >= start (tombstones included), ordered by cas, and its Scan fills every event field from the column that mirrors it, through the same converter as live events (R-BACKFILL, R-EVT-CONV, R-COLL); snapshot and live registration must form one critical section (R-BACKFILL-GAP). The values scanned from a backfill row are copies, not views into the driver's row buffer (R-BACKFILL).",
+		Rules:       []string{"R-BACKFILL", "R-BACKFILL-GAP", "R-EVT-CONV", "R-COLL", "R-BACKFILL-COND", "R-EVT-FEEDEVENT", "R-FEEDMAP-WRITERS", "R-CHECKPOINT", "R-EVT-1"},
+		Explanation: "The snapshot is taken whenever the arguments ask for it (R-BACKFILL-COND) and the live fan-out hands every event to every registered feed without filtering on event or feed state (R-EVT-FEEDEVENT). The backfill statement ranges over exactly the receiver's rows with cas >= start (tombstones included), ordered by cas, and its Scan fills every event field from the column that mirrors it, through the same converter as live events (R-BACKFILL, R-EVT-CONV, R-COLL); snapshot and live registration must form one critical section (R-BACKFILL-GAP). The values scanned from a backfill row are copies, not views into the driver's row buffer (R-BACKFILL). Every committed mutation is posted, by the runner, to the feeds registered when it is posted (R-EVT-1).",
 		NotDecided:  "that the snapshot equals the contents at a linearisation point; the interleaving of queued live events with backfill events at run time; begin/end marker placement beyond what R-BACKFILL-GAP's function shape implies.",
 	}
 	propTable["C10"] = PropDef{
 		Title:       "Durability and crash atomicity of on-disk buckets",
 		Rules:       []string{"R-TXN", "R-ONE-TXN", "R-COMMIT", "R-HLC", "R-HLC-MARK-SQL", "R-DSN", "R-EXP-SQL", "R-OPENMODE", "R-OPEN-ERR", "R-DROP", "R-UNIQUE-LOOKUP"},
-		Explanation: "An open that fails after the bucket was registered would delete a store other handles share: no return carries an error after registration (R-OPEN-ERR). One transaction per operation containing row, marks and index rows (R-TXN, R-ONE-TXN, R-HLC/MARK, R-HLC-MARK-SQL); success is reported only after a successful Commit (R-COMMIT); durability options of the connection string (R-DSN); the reopen path keeps identity (schema initialised only when user_version is 0: R-OPENMODE), re-seeds the clock (R-HLC/SEED) and re-arms expiry from a query over all rows with exp > 0, overdue ones included (R-EXP-SQL, R-OPENMODE). A drop is keyed by scope and name in the database, not by per-handle cached state (R-DROP).",
+		Explanation: "An open that fails after the bucket was registered would delete a store other handles share: no return carries an error after registration (R-OPEN-ERR). One transaction per operation containing row, marks and index rows (R-TXN, R-ONE-TXN, R-HLC/MARK, R-HLC-MARK-SQL); success is reported only after a successful Commit (R-COMMIT); durability options of the connection string (R-DSN); the reopen path keeps identity (schema initialised only when user_version is 0: R-OPENMODE), re-seeds the clock (R-HLC/SEED) and re-arms expiry from a query over all rows with exp > 0, overdue ones included (R-EXP-SQL, R-OPENMODE). A drop is keyed by scope and name in the database, not by per-handle cached state (R-DROP). No operation is composed of two calls that each commit on their own (R-ONE-TXN); a deferred cleanup may take 'version cell is 0' for 'new database' only if it cannot run before the version was read successfully (R-OPEN-ERR).",
 		NotDecided:  "SQLite/WAL/OS crash behaviour (trusted base); that acknowledged data is physically on disk.",
 	}
 	propTable["C11"] = PropDef{
 		Title:       "Collections (and buckets) are isolated from one another",
-		Rules:       []string{"R-COLL", "R-KEYSPACE", "R-DROP", "R-FEEDMAP", "R-EXP-SQL", "R-DSN", "R-LASTID", "R-UNIQUE-LOOKUP", "R-VIEW", "R-EXP", "R-FEEDMAP-WRITERS", "R-OPENMODE"},
-		Explanation: "Complete for SQL-mediated state: every statement variant of every collection method constrains every collection-owned table it ranges over (ownership from schema.sql foreign keys) to the receiver's id (R-COLL, R-KEYSPACE, R-EXP-SQL); dropping is keyed by scope and name, cascades through every ownership foreign key (enforced: _foreign_keys=1, R-DSN) and ids are never reused (R-DROP); feeds are registered and stopped under the collection's own name and the shared registry is never replaced (R-FEEDMAP). A collection's id is the id of the row its own INSERT created (R-LASTID).",
+		Rules:       []string{"R-COLL", "R-KEYSPACE", "R-DROP", "R-FEEDMAP", "R-EXP-SQL", "R-DSN", "R-LASTID", "R-UNIQUE-LOOKUP", "R-VIEW", "R-EXP", "R-FEEDMAP-WRITERS", "R-OPENMODE", "R-CHECKPOINT"},
+		Explanation: "Complete for SQL-mediated state: every statement variant of every collection method constrains every collection-owned table it ranges over (ownership from schema.sql foreign keys) to the receiver's id (R-COLL, R-KEYSPACE, R-EXP-SQL); dropping is keyed by scope and name, cascades through every ownership foreign key (enforced: _foreign_keys=1, R-DSN) and ids are never reused (R-DROP); feeds are registered and stopped under the collection's own name and the shared registry is never replaced (R-FEEDMAP). A collection's id is the id of the row its own INSERT created (R-LASTID). A feed's checkpoint document lives in the feed's own collection (R-CHECKPOINT).",
 		NotDecided:  "caller-supplied SQL beyond the keyspace envelope; CreateIndex (bucket-wide by documentation).",
 	}
 	propTable["C12"] = PropDef{
@@ -80,21 +80,21 @@ func registerProps() {
 	}
 	propTable["C13"] = PropDef{
 		Title:       "Bucket handle lifecycle: open modes, sharing, reference counting and deletion",
-		Rules:       []string{"R-REGISTRY", "R-OPENMODE", "R-CLOSED", "R-SHARED-COPY", "R-LOCK-PAIR", "R-GUARDED", "R-OPEN-ERR", "R-MEMURL"},
-		Explanation: "No return of the open function carries an error once the bucket is registered, so its cleanup-on-error cannot delete a shared store (R-OPEN-ERR). Handles are handed out only after a counted increment under the registry lock, store shutdown and entry removal are one critical section, deleting always reaches the file removal, Close releases its reference once and sets the closed flag under the mutex (R-REGISTRY); open-mode guards of the lookup and open functions (R-OPENMODE); the raw DB handle is used only behind the closed test and never reassigned (R-CLOSED); copies share the store (R-SHARED-COPY); registry and flags under their locks (R-GUARDED, R-LOCK-PAIR).",
+		Rules:       []string{"R-REGISTRY", "R-OPENMODE", "R-CLOSED", "R-SHARED-COPY", "R-LOCK-PAIR", "R-GUARDED", "R-OPEN-ERR", "R-MEMURL", "R-DSN"},
+		Explanation: "No return of the open function carries an error once the bucket is registered, so its cleanup-on-error cannot delete a shared store (R-OPEN-ERR). Handles are handed out only after a counted increment under the registry lock, store shutdown and entry removal are one critical section, deleting always reaches the file removal, Close releases its reference once and sets the closed flag under the mutex (R-REGISTRY); open-mode guards of the lookup and open functions (R-OPENMODE); the raw DB handle is used only behind the closed test and never reassigned (R-CLOSED); copies share the store (R-SHARED-COPY); registry and flags under their locks (R-GUARDED, R-LOCK-PAIR). The pool never retires connections by age: an in-memory bucket is its one connection (R-DSN).",
 		NotDecided:  "file-system effects; concurrent first opens of one name.",
 	}
 	propTable["C14"] = PropDef{
 		Title:       "Expiry: documents live until their expiry time and are tombstoned soon after",
-		Rules:       []string{"R-EXP-SQL", "R-EXP", "R-EVT-ROW", "R-ROWCOMPLETE", "R-OPENMODE", "R-TIMER", "R-OPTS-CARRY", "R-RMW", "R-KEEP-NEEDS-ROW"},
+		Rules:       []string{"R-EXP-SQL", "R-EXP", "R-EVT-ROW", "R-ROWCOMPLETE", "R-OPENMODE", "R-TIMER", "R-OPTS-CARRY", "R-RMW", "R-KEEP-NEEDS-ROW", "R-RETRY-STATE"},
 		Scope:       map[string][]string{"R-RMW": {"Update"}},
-		Explanation: "PreserveExpiry and the other write options reach the writer unchanged (R-OPTS-CARRY). Every expiry bound into a statement is absolute (passed through the offset-to-absolute function), preserved from the row, or 0 (R-EXP/a); every write unit that stores a possibly non-zero expiry leaves its closure with an event carrying that same value, or arms the timer itself with it (R-EXP/b, R-EVT-ROW/exp); the arm function re-arms iff cur == 0 or exp < cur, the callback clears the deadline and re-arms from the min-expiry query, the open function re-arms when the schema existed (R-EXP/c-e, R-OPENMODE); the expiry scan and min query predicates (R-EXP-SQL); tombstoning clears expiry (R-ROWCOMPLETE); the offset rule 0 < exp <= 30 days (R-EXP/h). The shared timer is created only when none is pending and stopped only by the store's shutdown routine (R-TIMER).",
+		Explanation: "PreserveExpiry and the other write options reach the writer unchanged (R-OPTS-CARRY). Every expiry bound into a statement is absolute (passed through the offset-to-absolute function), preserved from the row, or 0 (R-EXP/a); every write unit that stores a possibly non-zero expiry leaves its closure with an event carrying that same value, or arms the timer itself with it (R-EXP/b, R-EVT-ROW/exp); the arm function re-arms iff cur == 0 or exp < cur, the callback clears the deadline and re-arms from the min-expiry query, the open function re-arms when the schema existed (R-EXP/c-e, R-OPENMODE); the expiry scan and min query predicates (R-EXP-SQL); tombstoning clears expiry (R-ROWCOMPLETE); the offset rule 0 < exp <= 30 days (R-EXP/h). The shared timer is created only when none is pending and stopped only by the store's shutdown routine (R-TIMER). The expiry written by a retry of Update is this attempt's, not an abandoned one's (R-RETRY-STATE); the timer is armed under an unconditional lock acquisition (R-EXP/c').",
 		NotDecided:  "all timing ('before T', 'within a few seconds'); timer goroutine scheduling.",
 	}
 	propTable["C15"] = PropDef{
 		Title:       "Checkpointed feeds resume without skipping a mutation",
-		Rules:       []string{"R-CHECKPOINT", "R-ATOMIC-ENQ", "R-BACKFILL", "R-BACKFILL-GAP", "R-QUEUE", "R-BACKFILL-COND", "R-FEEDMAP-WRITERS", "R-EVT-FEEDEVENT", "R-HLC", "R-ROWCOMPLETE", "R-POST-ORDER", "R-FEED-DELIVER"},
-		Explanation: "Resume starts at checkpoint+1 with an inclusive lower bound (R-CHECKPOINT, R-BACKFILL); the feed loop advances its delivered-CAS only from the event just passed to the callback and only upwards, and persists exactly that field (R-CHECKPOINT); its premise, CAS-ordered delivery, needs FIFO queues, enqueue inside the commit's critical section and a backfill that is not interleaved with live events (R-QUEUE, R-ATOMIC-ENQ, R-BACKFILL-GAP). The snapshot is unconditional given the arguments (R-BACKFILL-COND); registry entries are only appended to and the fan-out withholds no event from a registered feed (R-FEEDMAP-WRITERS, R-EVT-FEEDEVENT); CAS order is commit order because the CAS is drawn inside the transaction closure (R-HLC). Every mutation refreshes the row's CAS, so a resume from (mark + 1) selects it (R-ROWCOMPLETE).",
+		Rules:       []string{"R-CHECKPOINT", "R-ATOMIC-ENQ", "R-BACKFILL", "R-BACKFILL-GAP", "R-QUEUE", "R-BACKFILL-COND", "R-FEEDMAP-WRITERS", "R-EVT-FEEDEVENT", "R-HLC", "R-ROWCOMPLETE", "R-POST-ORDER", "R-FEED-DELIVER", "R-EVT-ROW"},
+		Explanation: "Resume starts at checkpoint+1 with an inclusive lower bound (R-CHECKPOINT, R-BACKFILL); the feed loop advances its delivered-CAS only from the event just passed to the callback and only upwards, and persists exactly that field (R-CHECKPOINT); its premise, CAS-ordered delivery, needs FIFO queues, enqueue inside the commit's critical section and a backfill that is not interleaved with live events (R-QUEUE, R-ATOMIC-ENQ, R-BACKFILL-GAP). The snapshot is unconditional given the arguments (R-BACKFILL-COND); registry entries are only appended to and the fan-out withholds no event from a registered feed (R-FEEDMAP-WRITERS, R-EVT-FEEDEVENT); CAS order is commit order because the CAS is drawn inside the transaction closure (R-HLC). Every mutation refreshes the row's CAS, so a resume from (mark + 1) selects it (R-ROWCOMPLETE). Every transaction that gives a row a new CAS hands out an event (R-EVT-ROW 'no event').",
 		NotDecided:  "the union-of-runs behaviour itself.",
 	}
 	propTable["C16"] = PropDef{
@@ -111,21 +111,21 @@ func registerProps() {
 	}
 	propTable["C18"] = PropDef{
 		Title:       "Sub-document writes change only the addressed property, CAS-safely",
-		Rules:       []string{"R-RMW", "R-CAS", "R-FRESH-DECODE", "R-ERR-DROPPED"},
+		Rules:       []string{"R-RMW", "R-CAS", "R-FRESH-DECODE", "R-ERR-DROPPED", "R-INSERT-GUARD", "R-READ-CAS"},
 		Scope:       map[string][]string{"R-RMW": {"WriteSubDoc", "SubdocInsert"}, "R-CAS": {"WriteCas"}},
-		Explanation: "The sub-document writer reads into a variable that is fresh in every iteration, compares a caller-supplied CAS with the CAS it read before writing, writes back through the CAS-conditional entry point with the read CAS, and retries only on a CAS mismatch (R-RMW); that entry point's own guard is R-CAS. The document is decoded into a fresh map on every attempt (R-FRESH-DECODE).",
+		Explanation: "The sub-document writer reads into a variable that is fresh in every iteration, compares a caller-supplied CAS with the CAS it read before writing, writes back through the CAS-conditional entry point with the read CAS, and retries only on a CAS mismatch (R-RMW); that entry point's own guard is R-CAS. The document is decoded into a fresh map on every attempt (R-FRESH-DECODE). WriteCas fails with a CAS mismatch when its guarded statement matched no row (R-INSERT-GUARD); the read helper and its wrappers hand on a tombstone's CAS (R-READ-CAS).",
 		NotDecided:  "JSON path semantics (including null parents), preservation of the other properties (value level), GetSubDocRaw's result.",
 	}
 	propTable["C19"] = PropDef{
 		Title:       "SQL queries see exactly the live documents of their collection",
-		Rules:       []string{"R-KEYSPACE", "R-LIVE", "R-COLL", "R-ROWBUF"},
-		Explanation: "Every statement with caller-supplied text is wrapped in one CTE selecting key AS id, value AS body, xattrs from documents where collection = receiver id and value NOT NULL, with no further conjunct (R-KEYSPACE, R-COLL); liveness is decided from the body as the key-value reads do (R-LIVE); the row iterator hands out each row in storage private to that call, so the pre-recorded iterator of in-memory buckets keeps distinct rows (R-ROWBUF).",
+		Rules:       []string{"R-KEYSPACE", "R-LIVE", "R-COLL", "R-ROWBUF", "R-LASTID"},
+		Explanation: "Every statement with caller-supplied text is wrapped in one CTE selecting key AS id, value AS body, xattrs from documents where collection = receiver id and value NOT NULL, with no further conjunct (R-KEYSPACE, R-COLL); liveness is decided from the body as the key-value reads do (R-LIVE); the row iterator hands out each row in storage private to that call, so the pre-recorded iterator of in-memory buckets keeps distinct rows (R-ROWBUF). The collection id a query is restricted to comes from a plain INSERT's LastInsertId or a SELECT (R-LASTID); every occurrence of the keyspace token is replaced (R-KEYSPACE).",
 		NotDecided:  "row-by-row equality with a key-value read-back; iterator exhaustiveness; the caller's own SQL.",
 	}
 	propTable["C20"] = PropDef{
 		Title:       "Shutdown is safe: no panic, deadlock or leaked goroutine at any timing",
-		Rules:       []string{"R-LOCK-PAIR", "R-LOCK-ORDER", "R-GUARDED", "R-TXN-READS", "R-SHUTDOWN", "R-CLOSED", "R-FEEDMAP", "R-BG-PANIC", "R-TIMER", "R-DONE", "R-LOOPVAR", "R-WAIT-LOCK", "R-COMMIT", "R-REGISTRY", "R-FEED-START", "R-NIL-ROW"},
-		Explanation: "No lock is left held on any path (R-LOCK-PAIR); the lock-order graph computed from must-hold locksets and transitive may-acquire summaries is acyclic (R-LOCK-ORDER) and nothing inside a transaction re-enters the bucket mutex (R-TXN-READS); maps and the closed flag are accessed under their mutex (R-GUARDED: a concurrent map access is a fatal error); shutdown order (R-SHUTDOWN); the DB handle is never reset and is used only behind the closed test (R-CLOSED); the feed registry is never replaced (R-FEEDMAP); no explicit panic is reachable from a goroutine root or timer callback except the converter's assertions (R-BG-PANIC); the done channel of a feed is closed once (R-DONE, R-LOOPVAR: a second close panics in a library goroutine); only one expiry timer is ever pending, so stop() cancels it (R-TIMER). No lock needed by a goroutine is held while waiting for that goroutine to close a channel (R-WAIT-LOCK). The runner touches the transaction object only after a successful Begin (R-COMMIT).",
+		Rules:       []string{"R-LOCK-PAIR", "R-LOCK-ORDER", "R-GUARDED", "R-TXN-READS", "R-SHUTDOWN", "R-CLOSED", "R-FEEDMAP", "R-BG-PANIC", "R-TIMER", "R-DONE", "R-LOOPVAR", "R-WAIT-LOCK", "R-COMMIT", "R-REGISTRY", "R-FEED-START", "R-NIL-ROW", "R-ERR-DROPPED"},
+		Explanation: "No lock is left held on any path (R-LOCK-PAIR); the lock-order graph computed from must-hold locksets and transitive may-acquire summaries is acyclic (R-LOCK-ORDER) and nothing inside a transaction re-enters the bucket mutex (R-TXN-READS); maps and the closed flag are accessed under their mutex (R-GUARDED: a concurrent map access is a fatal error); shutdown order (R-SHUTDOWN); the DB handle is never reset and is used only behind the closed test (R-CLOSED); the feed registry is never replaced (R-FEEDMAP); no explicit panic is reachable from a goroutine root or timer callback except the converter's assertions (R-BG-PANIC); the done channel of a feed is closed once (R-DONE, R-LOOPVAR: a second close panics in a library goroutine); only one expiry timer is ever pending, so stop() cancels it (R-TIMER). No lock needed by a goroutine is held while waiting for that goroutine to close a channel (R-WAIT-LOCK). The runner touches the transaction object only after a successful Begin (R-COMMIT). A pointer obtained together with an error is not handed out as a non-nil interface on the error branch (R-ERR-DROPPED); no TryLock (R-LOCK-PAIR).",
 		NotDecided:  "absence of goroutine leaks and of run-time panics in general (nil dereferences, index errors); timing.",
 	}
 	// rules that are named above but not implemented yet are dropped from the lists, so that
